@@ -38,19 +38,20 @@ def quotes_of(scale):
     return [(b * scale, a * scale) for b, a in BASE_QUOTES]
 
 
-def alphabet(with_rebalance=True):
+def alphabet(with_rebalance=True, nquotes=len(BASE_QUOTES), marks=True):
     """Simplest-first so that the first counterexample is the shortest."""
     ops = []
     for ci in (0, 1):
-        for qi in range(len(BASE_QUOTES)):
+        for qi in range(nquotes):
             ops.append(("q", ci, qi))
     for ci in (0, 1):
         for dq in TRADE_SIZES:
             ops.append(("t", ci, dq))
     ops.append(("v",))
-    ops.append(("m",))
-    ops.append(("m1", 0))
-    ops.append(("m1", 1))
+    if marks:
+        ops.append(("m",))
+        ops.append(("m1", 0))
+        ops.append(("m1", 1))
     if with_rebalance:
         for ri in range(len(REBALANCES)):
             ops.append(("r", ri))
@@ -115,9 +116,16 @@ def fclose(got, exp, tol=1e-9):
 # ---------------------------------------------------------------------------
 # one transition on the real broker + reference, and the oracles
 
+def _quotes(scale):
+    """`scale` is either a number (scaling BASE_QUOTES) or an explicit quote list"""
+    if isinstance(scale, (list, tuple)):
+        return [tuple(q) for q in scale]
+    return quotes_of(scale)
+
+
 def initial(universe, fee, scale, deposit, rate=0.0):
     cs = contracts_of(universe)
-    q0 = (BASE_QUOTES[0][0] * scale, BASE_QUOTES[0][1] * scale)
+    q0 = _quotes(scale)[0]
     b = make_broker(cs, deposit=deposit, fixed=fee[0], proportional=fee[1], quote=q0, rate=rate)
     return b, Ledger(deposit, [c.symbol for c in cs]), cs
 
@@ -131,7 +139,7 @@ def apply_op(b, ref, cs, op, scale, fee):
     kind = op[0]
     if kind == "q":
         c = cs[op[1]]
-        bid, ask = quotes_of(scale)[op[2]]
+        bid, ask = _quotes(scale)[op[2]]
         b.exchange.process_EventNBBO(EventNBBO(T0, c, bid, ask))
     elif kind == "t":
         c = cs[op[1]]
@@ -320,3 +328,12 @@ def replay_history(universe, fee, scale, deposit, hist, rate=0.0):
         if out:
             break
     return out
+
+
+def collect_states(universe, fee, depth, scale, deposit, ops, rate=0.0):
+    """Every distinct state reachable within `depth` operations, as
+    (snapshot bytes, reference ledger, history)."""
+    out = []
+    r = bfs(universe, fee, depth, scale, deposit, ops, rate=rate,
+            on_state=lambda sb, ref, hist, d: out.append((sb, ref, hist)))
+    return out, r
